@@ -67,7 +67,15 @@ let () =
      | Some es ->
        let ms = Stdlib.List.sort compare (Stdlib.List.map (fun (p, x) -> (Printf.sprintf "%020s" (string_of_n p), x)) es) in
        let is = Stdlib.List.sort compare (Stdlib.List.map (fun (p, x) -> (Printf.sprintf "%020s" p, x)) impl) in
-       if Stdlib.List.length ms <> Stdlib.List.length is || not (Stdlib.List.for_all2 (fun (p, x) (q, y) -> p = q && close ~rel:1e-6 ~abs:1e-7 x y) ms is) then mism "derived metric differs"
+       if Stdlib.List.length ms <> Stdlib.List.length is || not (Stdlib.List.for_all2 (fun (p, x) (q, y) -> p = q && close ~rel:1e-6 ~abs:1e-7 x y) ms is) then begin
+         mism "derived metric differs";
+         (* same keys, other values: an entry is not the symmetrised distance (d(a,b) + d(b,a)) / 2 of its two centroids
+            over the largest such value -- with a one-sided distance the table depends on the order the buckets are listed in *)
+         if Stdlib.List.length ms = Stdlib.List.length is && Stdlib.List.for_all2 (fun (p, _) (q, _) -> p = q) ms is then
+           spec "c13_metric_entry_is_the_symmetrised_distance" false
+             (let (p, x), (_, y) = Stdlib.List.find (fun ((_, x), (_, y)) -> not (close ~rel:1e-6 ~abs:1e-7 x y)) (Stdlib.List.combine ms is) in
+              Printf.sprintf "pair key %s: %.7g in the table, %.7g from the layer's own distances" (String.trim p) y x)
+       end
      | None -> mism "model metric_step fails");
     spec "c13_metric_one_entry_per_pair" (Stdlib.List.length impl = k * (k - 1) / 2) (Printf.sprintf "%d entries for %d buckets" (Stdlib.List.length impl) k);
     spec "c13_metric_keys_distinct" (Stdlib.List.length (Stdlib.List.sort_uniq compare (Stdlib.List.map fst impl)) = Stdlib.List.length impl) "";
